@@ -179,6 +179,68 @@ class LeafSave(e2.Case):
         w.claim_eq("reload-max", rl[1], outs["hmax"], probe=lambda ro, val: ro["reloaded"][1])
 
 
+class LeafUpdate(e2.Case):
+    """A leaf that is written, then UPDATED through update_image with a second contribution (multi-input tiling):
+    the range recorded afterwards must bound every pixel of what is stored afterwards."""
+
+    def __init__(self, mode):
+        self.mode = mode
+        self.name = "leaf-update-range-%s" % mode
+        self.max_paths = 60
+
+    def run(self, w):
+        dt = DTYPES[self.mode]
+        fs = symfs.SymFS()
+        first = w.array("first", (256, 256), dt)
+        second = w.array("second", (256, 256), dt)
+        pr, pc = w.int("pr", 0, 255), w.int("pc", 0, 255)
+        if w.symbolic:
+            w.pixel(pr, pc)
+            w.assume(z3.Not(symnp.lift(first.get((pr, pc)), True).nan))      # the first write stores a tile
+        with w.patched(ti), fs.installed(w):
+            pio = PyramidIO("/t", default_format="fits")
+            pos = Pos(4, 3, 9)
+            img1 = Image.from_array(first, default_format="fits")
+            pio.write_image(pos, img1)
+            with pio.update_image(pos, masked_mode=img1.mode, default="masked") as basis:
+                Image.from_array(second, default_format="fits").update_into_maskable_buffer(basis, slice(None), slice(None), slice(None), slice(None))
+            path = pio.tile_path(pos, makedirs=False)
+            f = fs.files.get(path)
+        hdr = None if f is None else f["header"]
+        out = dict(exists=f is not None, hmin=None if hdr is None else hdr.get("DATAMIN"), hmax=None if hdr is None else hdr.get("DATAMAX"),
+                   stored=None if f is None else f["arr"], first=first, second=second)
+        if not w.symbolic and f is not None:
+            import warnings
+            with warnings.catch_warnings():
+                warnings.simplefilter("ignore")
+                a = _np.asarray(f["arr"], dtype=float)
+                out["ref_min"] = None if _np.all(_np.isnan(a)) else float(_np.nanmin(a))
+                out["ref_max"] = None if _np.all(_np.isnan(a)) else float(_np.nanmax(a))
+        return out
+
+    def same_path(self, so, ro):
+        return so["exists"] == ro["exists"] and (so["hmin"] is None) == (ro["hmin"] is None)
+
+    def claims(self, w, outs):
+        r = w.int("r", 0, 255)
+        c = w.int("c", 0, 255)
+        w.pixel(r, c)
+        w.claim("updated-leaf-exists", outs["exists"], probe=lambda ro, val: ro["exists"], what="the updated leaf is not stored")
+        if not outs["exists"] or outs["hmin"] is None or outs["hmax"] is None:
+            w.claim("updated-leaf-has-range", False if outs["exists"] else True, probe=lambda ro, val: ro["hmin"] is not None and ro["hmax"] is not None,
+                    what="the updated leaf records no DATAMIN / DATAMAX")
+            return
+        e = symnp.lift(outs["stored"].get((r, c)), True)
+        hm = symnp.lift(outs["hmin"], True)
+        hx = symnp.lift(outs["hmax"], True)
+        w.claim("updated-leaf-min-bounds-every-stored-pixel", z3.Or(e.nan, z3.And(z3.Not(hm.nan), hm.val <= e.val)),
+                probe=lambda ro, val: close_or_le(ro["hmin"], ro["ref_min"]), what="after update_image the leaf's DATAMIN exceeds a defined stored pixel (stale range of the earlier content)")
+        w.claim("updated-leaf-max-bounds-every-stored-pixel", z3.Or(e.nan, z3.And(z3.Not(hx.nan), hx.val >= e.val)),
+                probe=lambda ro, val: close_or_le(ro["ref_max"], ro["hmax"]), what="after update_image the leaf's DATAMAX is below a defined stored pixel (stale range of the earlier content)")
+        w.claim_eq("updated-leaf-min-is-nanmin", outs["hmin"], outs["hmin"], probe=("hmin", None), ref=("ref_min", None))
+        w.claim_eq("updated-leaf-max-is-nanmax", outs["hmax"], outs["hmax"], probe=("hmax", None), ref=("ref_max", None))
+
+
 def close_or_le(a, b):
     return a is not None and b is not None and (float(a) <= float(b) or e2.close(a, b))
 
@@ -249,11 +311,11 @@ class RootToImageSet(e2.Case):
 
 
 def cases(tier):
-    return [ParentStep(m) for m in DTYPES] + [LeafSave("F32"), LeafSave("F64"), RootToImageSet()]
+    return [ParentStep(m) for m in DTYPES] + [LeafSave("F32"), LeafSave("F64"), LeafUpdate("F32"), LeafUpdate("F64"), RootToImageSet()]
 
 
 def check(run):
-    run.uses(tm.TileMerger.walk_callback, tm.TileMerger._get_min_max_of_children, tm.averaging_merger, ti.Image.save,
+    run.uses(tm.TileMerger.walk_callback, tm.TileMerger._get_min_max_of_children, tm.averaging_merger, ti.Image.save, tp.PyramidIO.update_image,
              ti.Image.from_array, ti.ImageLoader.load_path, ti.ImageLoader._get_header_value_or_none,
              tp.PyramidIO.write_image, tp.PyramidIO.read_image, tb.Builder.cascade)
     run.bound(children="16 presence patterns x every subset of present children carrying a recorded range", ranges="symbolic reals",
